@@ -8,8 +8,11 @@ all-digits → `int`, digits with one '.' → `float`, everything else (incl. ev
 every exponent form) → text. Numbers are kept as *canonical decimal digit strings* (`int "7"`,
 `flt "12" "5"` = 12.5), which is what Python's `int`/`float` followed by `str` produce for decimals of
 at most 15 significant digits (recorded assumption; probed by the harness on every run).
-`none` = the code raises, or the input is outside the modelled class (sections whose key lists
-differ, duplicate keys; never generated). -/
+`none` = the code raises, or the input is outside this STRICT model (sections whose key lists
+differ, duplicate keys, a `[` line inside a section, TiltAngle / section values in spellings only `float()` / `int()`
+accept). Model/C17_Ext.lean separates the two: `parseMdocX` follows the code on duplicate header keys and float() tilt
+spellings (conservative extension of `parseMdoc`), `whyNone` names the remaining classes, which are generated and
+explicitly skipped by the judge. -/
 namespace CryoCat.C17
 
 abbrev Str := List Char
@@ -236,11 +239,27 @@ def sortRowsBy (key : Row → Rat) (asc : Bool) (rows : List Row) : List Row :=
 
 def renumber (rows : List Row) : List Row := rows.zipIdx.map (fun p => { p.1 with z := Nat.toDigits 10 p.2 })
 
-/-- `Mdoc.sort_by_tilt(reset_z_value)`; the reset writes the column literally named "ZValue" -/
+/-- `self.imgs["ZValue"] = range(n)` on a table whose section column is NOT called "ZValue" (a FrameSet mdoc): pandas
+overwrites a data column of that name when there is one, otherwise it appends a NEW column — every image gains an entry
+`ZValue = k` (open finding C17-K3: the statement's "sorting changes only the order" fails for this class) -/
+def resetForeign (m : Mdoc) : Mdoc :=
+  let k := Gen.C17.resetKey
+  let i := m.cols.idxOf k
+  if i < m.cols.length then
+    { m with rows := m.rows.zipIdx.map (fun p => { p.1 with cells := p.1.cells.set i (.int (Nat.toDigits 10 p.2)) }) }
+  else
+    { m with cols := m.cols ++ [k],
+             rows := m.rows.zipIdx.map (fun p => { p.1 with cells := p.1.cells ++ [.int (Nat.toDigits 10 p.2)] }) }
+
+/-- does `reset_z_value=True` hit the section column of this object? (the source hard-codes the key `Gen.C17.resetKey`) -/
+def resetHitsSection (m : Mdoc) : Bool := Gen.C17.resetUsesSectionId || m.sid == Gen.C17.resetKey
+
+/-- `Mdoc.sort_by_tilt(reset_z_value)`; the reset writes the column literally named "ZValue" (`Gen.C17.resetKey`) -/
 def sortByTilt (reset : Bool) (m : Mdoc) : Mdoc :=
   let i := m.cols.idxOf Gen.C17.sortKey
   let rows := sortRowsBy (Row.tiltAt i) Gen.C17.sortAscending m.rows
-  { m with rows := if reset then renumber rows else rows }
+  if reset && !resetHitsSection m then resetForeign { m with rows := rows }
+  else { m with rows := if reset then renumber rows else rows }
 
 def keptImages (m : Mdoc) : List Row := m.rows.filter (fun r => !r.removed)
 
